@@ -10,423 +10,6 @@ Proof.
   rewrite Z.mod_mod by lia. apply Z.mod_small. lia.
 Qed.
 
-(** * The selector with one poller and read interest only, against a binding coroutine <-> descriptor *)
-
-Definition ent (c : Z) : kent := {| k_r := true; k_w := false; k_tok := encode c |}.
-
-Record sel_ok (nfd : Z) (s : sel) (b : list (Z * Z)) : Prop := {
-  so_kern : exists tb, s_kern s = [tb];
-  so_wrec : s_wrec s = [];
-  so_open : forall fd, 0 <= fd < nfd -> zmem fd (s_open s) = true;
-  so_fwd : forall c fd, aget c b = Some fd -> aget fd (tbl s 0) = Some (ent c);
-  so_bwd : forall fd e, aget fd (tbl s 0) = Some e -> exists c, aget c b = Some fd;
-  so_rrec : forall fd, zmem fd (s_rrec s) = match aget fd (tbl s 0) with Some _ => true | None => false end
-}.
-
-Lemma sel_ok_ext : forall nfd s b b', (forall k, aget k b' = aget k b) -> sel_ok nfd s b -> sel_ok nfd s b'.
-Proof.
-  intros nfd s b b' E [K W O F B R]. constructor; auto.
-  - intros c fd H. rewrite E in H. auto.
-  - intros fd e H. destruct (B fd e H) as [c Hc]. exists c. now rewrite E.
-Qed.
-
-Lemma sel_ok_mark : forall nfd s b i fd, sel_ok nfd s b -> sel_ok nfd (mark s i fd) b.
-Proof.
-  intros nfd s b i fd H. unfold mark. destruct (coherent s i fd); [exact H|].
-  destruct H as [K W O F B R]. constructor; auto.
-Qed.
-
-Lemma tbl0_with : forall s tb t, s_kern s = [tb] -> nth 0%nat (lset (s_kern s) 0 t) [] = t.
-Proof. intros s tb t H. rewrite H. reflexivity. Qed.
-
-Lemma add_read_ok : forall nfd s b c fd,
-  sel_ok nfd s b -> 0 <= fd < nfd -> bound_ok b c fd = true ->
-  exists s', add_read_event s 0 fd c = (true, s') /\ sel_ok nfd s' (aset c fd b)
-             /\ aget fd (tbl s' 0) = Some (ent c).
-Proof.
-  intros nfd s0 b c fd H0 Hfd Hb. unfold add_read_event.
-  pose proof (sel_ok_mark nfd s0 b 0%nat fd H0) as H. set (s := mark s0 0 fd) in *. clearbody s. clear H0 s0.
-  destruct H as [K W O F B R].
-  destruct (zmem fd (s_rrec s)) eqn:Er.
-  - exists s. split; [reflexivity|]. rewrite R in Er.
-    destruct (aget fd (tbl s 0)) as [k|] eqn:G; [|discriminate].
-    destruct (B fd k G) as [c' Hc']. unfold bound_ok in Hb.
-    destruct (aget c b) eqn:Gc.
-    + apply Z.eqb_eq in Hb; subst z. split.
-      * apply sel_ok_ext with (b := b); [|constructor; auto].
-        intros k0. rewrite aget_aset. destruct (k0 =? c) eqn:E; [|reflexivity].
-        apply Z.eqb_eq in E; subst. now rewrite Gc.
-      * rewrite <- G. exact (F c fd Gc).
-    + apply negb_true_iff in Hb. exfalso. exact (existsb_snd_false b fd Hb c' Hc').
-  - rewrite W. cbn [zmem]. unfold register, k_add. rewrite (O fd Hfd). cbn [negb].
-    rewrite R in Er. destruct (aget fd (tbl s 0)) eqn:G; [discriminate|].
-    assert (Hc : aget c b = None /\ forall c', aget c' b <> Some fd).
-    { unfold bound_ok in Hb. destruct (aget c b) eqn:Gc.
-      - apply Z.eqb_eq in Hb; subst z. rewrite (F c fd Gc) in G. discriminate.
-      - apply negb_true_iff in Hb. split; [reflexivity|]. exact (existsb_snd_false b fd Hb). }
-    destruct Hc as [Hc1 Hc2].
-    destruct K as [tb K].
-    eexists. split; [reflexivity|].
-    assert (T : forall x, aget x (tbl (with_r
-                  (with_tokfd (with_tbl s 0 (aset fd (ent c) (tbl s 0))) (aset c fd (s_tokfd s)))
-                  (zadd fd (s_rrec s)) (aset fd c (s_rtok s))) 0)
-                = if x =? fd then Some (ent c) else aget x (tbl s 0)).
-    { intros x. unfold tbl at 1. cbn [s_kern with_r with_tokfd with_tbl].
-      rewrite (tbl0_with s tb _ K). apply aget_aset. }
-    split; [constructor|].
-    + exists (aset fd (ent c) (tbl s 0)). cbn [s_kern with_r with_tokfd with_tbl]. rewrite K. reflexivity.
-    + exact W.
-    + exact O.
-    + intros c' fd' H'. rewrite T. rewrite aget_aset in H'.
-      destruct (c' =? c) eqn:E.
-      * apply Z.eqb_eq in E; subst c'. inversion H'; subst fd'. now rewrite Z.eqb_refl.
-      * destruct (fd' =? fd) eqn:E2.
-        -- apply Z.eqb_eq in E2; subst fd'. exfalso. exact (Hc2 c' H').
-        -- exact (F c' fd' H').
-    + intros fd' e H'. rewrite T in H'. destruct (fd' =? fd) eqn:E2.
-      * apply Z.eqb_eq in E2; subst fd'. exists c. rewrite aget_aset. now rewrite Z.eqb_refl.
-      * destruct (B fd' e H') as [c' Hc']. exists c'. rewrite aget_aset.
-        destruct (c' =? c) eqn:E; [|exact Hc'].
-        apply Z.eqb_eq in E; subst c'. congruence.
-    + intros fd'. rewrite T. cbn [s_rrec with_r]. rewrite zmem_zadd, R.
-      destruct (fd' =? fd); reflexivity.
-    + rewrite T. now rewrite Z.eqb_refl.
-Qed.
-
-Lemma deliver_ok : forall nfd s b tok r w, sel_ok nfd s b -> sel_ok nfd (deliver s tok r w) b.
-Proof.
-  intros nfd s b tok r w [K W O F B R]. unfold deliver.
-  destruct r, w; constructor; auto.
-Qed.
-
-Lemma deliver_tbl : forall s tok r w i, tbl (deliver s tok r w) i = tbl s i.
-Proof. intros s tok r w i. unfold deliver. destruct r, w; reflexivity. Qed.
-
-Lemma sel_ok_after_del : forall nfd s b fd sf tb,
-  sel_ok nfd s b -> ukeys b -> s_kern s = [tb] ->
-  s_kern sf = [arem fd tb] -> s_rrec sf = zrem fd (s_rrec s) -> s_wrec sf = [] -> s_open sf = s_open s ->
-  sel_ok nfd sf (filter (fun p => negb (snd p =? fd)) b).
-Proof.
-  intros nfd s b fd sf tb [K W O F B R] Ub Ks E1 E3 E4 E2.
-  assert (Tb : tbl s 0 = tb) by (unfold tbl; now rewrite Ks).
-  assert (T : forall x, aget x (tbl sf 0) = if x =? fd then None else aget x (tbl s 0)).
-  { intros x. unfold tbl at 1. rewrite E1. cbn [nth]. rewrite Tb. apply aget_arem. }
-  constructor.
-  - now exists (arem fd tb).
-  - exact E4.
-  - rewrite E2. exact O.
-  - intros c fd' H'. rewrite T. rewrite (aget_filter_snd b fd c Ub) in H'.
-    destruct (aget c b) as [f|] eqn:Gc; [|discriminate].
-    destruct (f =? fd) eqn:Ef; [discriminate|]. inversion H'; subst fd'. rewrite Ef. exact (F c f Gc).
-  - intros fd' e' H'. rewrite T in H'. destruct (fd' =? fd) eqn:Ef; [discriminate|].
-    destruct (B fd' e' H') as [c Hc]. exists c. rewrite (aget_filter_snd b fd c Ub), Hc, Ef. reflexivity.
-  - intros fd'. rewrite T, E3, zmem_zrem, R. destruct (fd' =? fd); reflexivity.
-Qed.
-
-Lemma del_ok : forall nfd s b fd,
-  sel_ok nfd s b -> ukeys b -> 0 <= fd < nfd ->
-  exists s', el_del_event s fd = (true, s') /\ sel_ok nfd s' (filter (fun p => negb (snd p =? fd)) b).
-Proof.
-  intros nfd s0 b fd H0 Ub Hfd. unfold el_del_event, loops.
-  destruct (so_kern _ _ _ H0) as [tb0 K0]. rewrite K0. cbn [List.length all_loops].
-  unfold del_event.
-  pose proof (sel_ok_mark nfd s0 b 0%nat fd H0) as H. set (s := mark s0 0 fd) in *. clearbody s. clear H0 K0 tb0 s0.
-  pose proof H as Hs. destruct H as [K W O F B R]. destruct K as [tb K].
-  assert (Tb : tbl s 0 = tb) by (unfold tbl; now rewrite K).
-  unfold del_event_core. rewrite W. cbn [zmem]. rewrite orb_false_r.
-  destruct (zmem fd (s_rrec s)) eqn:Er.
-  - rewrite R in Er. destruct (aget fd (tbl s 0)) as [e|] eqn:G; [|discriminate].
-    assert (FIN : forall s1 tok, s_kern s1 = s_kern s -> s_open s1 = s_open s -> s_rrec s1 = s_rrec s ->
-              s_wrec s1 = s_wrec s ->
-              exists s', (let '(ok, s2) := deregister s1 0 fd tok in
-                          if ok then (true, with_w (with_r s2 (zrem fd (s_rrec s2)) (s_rtok s2)) (zrem fd (s_wrec s2)) (s_wtok s2))
-                          else (false, s2)) = (true, s')
-                         /\ sel_ok nfd s' (filter (fun p => negb (snd p =? fd)) b)).
-    { intros s1 tok E1 E2 E3 E4. unfold deregister, k_del. unfold tbl at 1. rewrite E1, E2.
-      fold (tbl s 0). rewrite (O fd Hfd). cbn [negb]. rewrite G.
-      eexists. split; [reflexivity|].
-      apply (sel_ok_after_del nfd s b fd _ tb Hs Ub K).
-      - cbn [s_kern with_w with_r with_tokfd with_tbl]. unfold tbl. rewrite E1, ?K. reflexivity.
-      - cbn [s_rrec with_w with_r with_tokfd with_tbl]. now rewrite E3.
-      - cbn [s_wrec with_w with_r with_tokfd with_tbl]. now rewrite E4, W.
-      - cbn [s_open with_w with_r with_tokfd with_tbl]. exact E2. }
-    destruct (aget fd (s_rtok s)) as [t1|]; [|destruct (aget fd (s_wtok s)) as [t2|]].
-    + destruct (FIN (with_r s (s_rrec s) (arem fd (s_rtok s))) t1) as [s' [E S]]; try reflexivity.
-      exists s'. rewrite E. split; [reflexivity|exact S].
-    + destruct (FIN (with_w s [] (arem fd (s_wtok s))) t2) as [s' [E S]]; try reflexivity;
-        try (cbn [s_wrec with_w]; now rewrite W).
-      exists s'. rewrite E. split; [reflexivity|exact S].
-    + destruct (FIN s 0) as [s' [E S]]; try reflexivity.
-      exists s'. rewrite E. split; [reflexivity|exact S].
-  - exists s. split; [reflexivity|].
-    rewrite R in Er. destruct (aget fd (tbl s 0)) as [e|] eqn:G; [discriminate|].
-    apply sel_ok_ext with (b := b); [|exact Hs].
-    intros k. rewrite (aget_filter_snd b fd k Ub). destruct (aget k b) as [f|] eqn:Gk; [|reflexivity].
-    destruct (f =? fd) eqn:Ef; [|reflexivity]. apply Z.eqb_eq in Ef; subst f.
-    rewrite (F k fd Gk) in G. discriminate.
-Qed.
-
-(** * Tracker lemmas *)
-
-Lemma arem_none : forall {V} k (l : list (Z * V)), aget k l = None -> arem k l = l.
-Proof.
-  intros V k l. induction l as [|[a b] l IH]; cbn [aget arem]; [reflexivity|].
-  destruct (k =? a); [discriminate|]. intros H. now rewrite IH.
-Qed.
-
-Lemma aget_void_fd : forall fd c t,
-  aget c (void_fd fd t) = match aget c t with Some f => Some (if f =? fd then VOID else f) | None => None end.
-Proof.
-  intros fd c t. induction t as [|[a f] t IH]; cbn [void_fd aget]; [reflexivity|].
-  destruct (c =? a); [reflexivity|exact IH].
-Qed.
-
-Lemma keys_void_fd : forall fd t, map fst (void_fd fd t) = map fst t.
-Proof. intros fd t. induction t as [|[a f] t IH]; cbn [void_fd map fst]; [reflexivity|]. now rewrite IH. Qed.
-
-Lemma ukeys_void_fd : forall fd t, ukeys t -> ukeys (void_fd fd t).
-Proof. intros fd t U. unfold ukeys. now rewrite keys_void_fd. Qed.
-
-Lemma aget_head_notin : forall {V} a (l : list (Z * V)), ~ In a (map fst l) -> aget a l = None.
-Proof.
-  intros V a l H. destruct (aget a l) eqn:G; [|reflexivity].
-  exfalso. apply H. apply aget_In in G. apply (in_map fst) in G. exact G.
-Qed.
-
-Lemma waiters_none : forall fd t, ukeys t -> (forall c, aget c t <> Some fd) -> waiters_on fd t = [].
-Proof.
-  intros fd t. unfold waiters_on. induction t as [|[a f] t IH]; intros U H; [reflexivity|].
-  unfold ukeys in U. cbn [map fst] in U. inversion U as [|x xs Hn Hd]; subst.
-  cbn [filter snd]. destruct (f =? fd) eqn:E.
-  - exfalso. apply (H a). cbn [aget]. rewrite Z.eqb_refl. apply Z.eqb_eq in E. now subst.
-  - apply IH; [exact Hd|]. intros c Hc. apply (H c). cbn [aget].
-    destruct (c =? a) eqn:Eca; [|exact Hc].
-    apply Z.eqb_eq in Eca; subst c. rewrite (aget_head_notin a t Hn) in Hc. discriminate.
-Qed.
-
-Lemma waiters_one : forall fd t c, ukeys t -> aget c t = Some fd ->
-  (forall c', aget c' t = Some fd -> c' = c) -> waiters_on fd t = [c].
-Proof.
-  intros fd t c. unfold waiters_on. induction t as [|[a f] t IH]; intros U G H; [discriminate|].
-  unfold ukeys in U. cbn [map fst] in U. inversion U as [|x xs Hn Hd]; subst.
-  cbn [filter snd]. cbn [aget] in G. destruct (f =? fd) eqn:E.
-  - apply Z.eqb_eq in E; subst f.
-    assert (a = c). { apply H. cbn [aget]. now rewrite Z.eqb_refl. } subst a.
-    cbn [map fst]. f_equal. apply (waiters_none fd t Hd).
-    intros c' Hc'. assert (c' = c).
-    { apply H. cbn [aget]. destruct (c' =? c) eqn:E'; [|exact Hc'].
-      apply Z.eqb_eq in E'; subst c'. rewrite (aget_head_notin c t Hn) in Hc'. discriminate. }
-    subst c'. rewrite (aget_head_notin c t Hn) in Hc'. discriminate.
-  - destruct (c =? a) eqn:Eca.
-    + inversion G; subst f. now rewrite Z.eqb_refl in E.
-    + apply IH; [exact Hd|exact G|]. intros c' Hc'. apply H. cbn [aget].
-      destruct (c' =? a) eqn:E'; [|exact Hc'].
-      apply Z.eqb_eq in E'; subst c'. rewrite (aget_head_notin a t Hn) in Hc'. discriminate.
-Qed.
-
-(** * The invariant for paired histories *)
-
-Record Inv (nfd : Z) (l : loop) (t b : list (Z * Z)) : Prop := {
-  i_sel : sel_ok nfd (l_sel l) b;
-  i_sys : l_sys l = t;
-  i_ub : ukeys b;
-  i_ut : ukeys t;
-  i_inj : forall c1 c2 f, aget c1 b = Some f -> aget c2 b = Some f -> c1 = c2;
-  i_live : forall c f, aget c t = Some f -> f <> VOID -> aget c b = Some f /\ zmem c (l_cotok l) = true;
-  i_void : forall c, aget c t = Some VOID -> aget c b = None;
-  i_rng : forall c f, aget c b = Some f -> 0 <= c < 2 ^ 64 /\ 0 <= f < nfd
-}.
-
-Lemma in_u64_range : forall c, in_u64 c = true -> 0 <= c < 2 ^ 64.
-Proof.
-  intros c H. unfold in_u64, U64MAX in H. change (2 ^ 64) with 18446744073709551616. lia.
-Qed.
-
-Lemma same_set_refl1 : forall c, same_set [c] [c] = true.
-Proof. intros c. unfold same_set, subset. cbn. now rewrite Z.eqb_refl. Qed.
-
-(** what the binding looks like after a wait *)
-Lemma bind_wait : forall nfd l t b c fd,
-  Inv nfd l t b -> in_u64 c = true -> 0 <= fd < nfd -> bound_ok b c fd = true ->
-  ukeys (aset c fd b)
-  /\ (forall c1 c2 f, aget c1 (aset c fd b) = Some f -> aget c2 (aset c fd b) = Some f -> c1 = c2)
-  /\ (forall c' f, aget c' (aset c fd b) = Some f -> 0 <= c' < 2 ^ 64 /\ 0 <= f < nfd).
-Proof.
-  intros nfd l t b c fd I Hc Hfd Hb. destruct I as [S Y Ub Ut J L V R].
-  assert (Hfree : forall c', c' <> c -> aget c' b <> Some fd).
-  { intros c' Hne G. unfold bound_ok in Hb. destruct (aget c b) as [f0|] eqn:Gc.
-    - apply Z.eqb_eq in Hb; subst f0. apply Hne. exact (J c' c fd G Gc).
-    - apply negb_true_iff in Hb. exact (existsb_snd_false b fd Hb c' G). }
-  split; [now apply ukeys_aset|]. split.
-  - intros c1 c2 f H1 H2. rewrite aget_aset in H1, H2.
-    destruct (c1 =? c) eqn:E1, (c2 =? c) eqn:E2.
-    + apply Z.eqb_eq in E1, E2. congruence.
-    + apply Z.eqb_eq in E1. apply Z.eqb_neq in E2. inversion H1; subst f. exfalso. exact (Hfree c2 E2 H2).
-    + apply Z.eqb_eq in E2. apply Z.eqb_neq in E1. inversion H2; subst f. exfalso. exact (Hfree c1 E1 H1).
-    + exact (J c1 c2 f H1 H2).
-  - intros c' f H. rewrite aget_aset in H. destruct (c' =? c) eqn:E.
-    + apply Z.eqb_eq in E; subst c'. inversion H; subst f. split; [now apply in_u64_range|exact Hfd].
-    + exact (R c' f H).
-Qed.
-
-Lemma step_inv : forall nfd l t b o,
-  Inv nfd l t b -> wf_op nfd t o = true -> fst (pair_step b o) = true ->
-  fst (ok_step t o (snd (step l o))) = true
-  /\ snd (ok_step t o (snd (step l o))) = spec_step t o
-  /\ Inv nfd (fst (step l o)) (spec_step t o) (snd (pair_step b o)).
-Proof.
-  intros nfd l t b o I Hwf Hp. destruct o as [c fd|c fd|fd|fd]; cbn [wf_op pair_step fst snd spec_step] in *.
-  - (* Wait *)
-    apply andb_true_iff in Hwf as [Hwf Hn]. apply andb_true_iff in Hwf as [Hwf H3].
-    apply andb_true_iff in Hwf as [Hc H2].
-    assert (Hfd : 0 <= fd < nfd) by lia.
-    destruct (aget c t) eqn:Gt; [discriminate|].
-    destruct (bind_wait nfd l t b c fd I Hc Hfd Hp) as [Ub' [J' R']].
-    destruct I as [S Y Ub Ut J L V R].
-    destruct (add_read_ok nfd (l_sel l) b c fd S Hfd Hp) as [s' [E [S' G']]].
-    cbn [step]. rewrite Y, Gt. unfold begin_wait. rewrite E. cbn [fst snd ok_step].
-    split; [reflexivity|]. split; [reflexivity|].
-    constructor; cbn [l_sel l_sys l_cotok]; auto.
-    + now rewrite Y.
-    + now apply ukeys_aset.
-    + intros c' f H Hv. rewrite aget_aset in H. rewrite aget_aset, zmem_zadd.
-      destruct (c' =? c) eqn:Ec.
-      * inversion H; subst f. split; reflexivity.
-      * destruct (L c' f H Hv) as [L1 L2]. split; [exact L1|]. rewrite L2. apply orb_true_r.
-    + intros c' H. rewrite aget_aset in H. rewrite aget_aset. destruct (c' =? c) eqn:Ec.
-      * inversion H. unfold VOID in *. lia.
-      * exact (V c' H).
-  - (* WaitT *)
-    apply andb_true_iff in Hwf as [Hwf Hn]. apply andb_true_iff in Hwf as [Hwf H3].
-    apply andb_true_iff in Hwf as [Hc H2].
-    assert (Hfd : 0 <= fd < nfd) by lia.
-    destruct (aget c t) eqn:Gt; [discriminate|].
-    destruct (bind_wait nfd l t b c fd I Hc Hfd Hp) as [Ub' [J' R']].
-    destruct I as [S Y Ub Ut J L V R].
-    destruct (add_read_ok nfd (l_sel l) b c fd S Hfd Hp) as [s' [E [S' G']]].
-    cbn [step]. rewrite Y, Gt. unfold begin_wait. rewrite E. cbn [fst snd ok_step].
-    split; [reflexivity|]. split; [reflexivity|].
-    constructor; cbn [l_sel l_sys l_cotok]; auto.
-    + intros c' f H Hv. rewrite aget_aset, zmem_zadd.
-      destruct (c' =? c) eqn:Ec.
-      * apply Z.eqb_eq in Ec; subst c'. congruence.
-      * destruct (L c' f H Hv) as [L1 L2]. split; [exact L1|]. rewrite L2. apply orb_true_r.
-    + intros c' H. rewrite aget_aset. destruct (c' =? c) eqn:Ec.
-      * apply Z.eqb_eq in Ec; subst c'. congruence.
-      * exact (V c' H).
-  - (* Ready *)
-    assert (Hfd : 0 <= fd < nfd) by lia. clear Hwf Hp.
-    destruct I as [S Y Ub Ut J L V R].
-    assert (Hnv : fd <> VOID) by (unfold VOID; lia).
-    cbn [step]. destruct (aget fd (tbl (l_sel l) 0)) as [e|] eqn:G.
-    + destruct (so_bwd _ _ _ S fd e G) as [c Hc].
-      pose proof (so_fwd _ _ _ S c fd Hc) as G2. rewrite G in G2. inversion G2; subst e. clear G2.
-      cbn [k_r k_w k_tok ent]. destruct (R c fd Hc) as [Rc _].
-      rewrite (roundtrip c Rc). rewrite Y.
-      assert (Huniq : forall c', aget c' t = Some fd -> c' = c).
-      { intros c' H. destruct (L c' fd H Hnv) as [L1 _]. exact (J c' c fd L1 Hc). }
-      destruct (aget c t) as [f|] eqn:Gc.
-      * (* c is suspended *)
-        assert (f = fd).
-        { destruct (Z.eq_dec f VOID) as [Ev|Ev].
-          - subst f. rewrite (V c Gc) in Hc. discriminate.
-          - destruct (L c f Gc Ev) as [L1 _]. congruence. }
-        subst f. destruct (L c fd Gc Hnv) as [_ Lc]. rewrite Lc.
-        cbn [fst snd ok_step]. rewrite (waiters_one fd t c Ut Gc Huniq).
-        split; [apply same_set_refl1|]. split; [reflexivity|]. cbn [fold_left].
-        constructor; cbn [l_sel l_sys l_cotok]; auto.
-        -- now apply deliver_ok.
-        -- now apply ukeys_arem.
-        -- intros c' f H Hv. rewrite aget_arem in H. rewrite zmem_zrem.
-           destruct (c' =? c) eqn:Ec; [discriminate|]. destruct (L c' f H Hv) as [L1 L2].
-           split; [exact L1|]. now rewrite L2.
-        -- intros c' H. rewrite aget_arem in H. destruct (c' =? c); [discriminate|]. exact (V c' H).
-      * (* nobody waits on fd *)
-        assert (Hw : waiters_on fd t = []).
-        { apply (waiters_none fd t Ut). intros c' H. rewrite (Huniq c' H) in H. congruence. }
-        assert (Hwk : (if zmem c (l_cotok l) then match @None Z with Some _ => [c] | None => [] end else []) = []).
-        { destruct (zmem c (l_cotok l)); reflexivity. }
-        cbn [fst snd ok_step]. rewrite Hw, Hwk. cbn [fold_left].
-        split; [reflexivity|]. split; [reflexivity|].
-        constructor; cbn [l_sel l_sys l_cotok]; auto.
-        -- now apply deliver_ok.
-        -- destruct (zmem c (l_cotok l)); [|reflexivity]. now apply arem_none.
-        -- intros c' f H Hv. rewrite zmem_zrem. destruct (L c' f H Hv) as [L1 L2].
-           split; [exact L1|]. rewrite L2. destruct (c' =? c) eqn:Ec; [|reflexivity].
-           apply Z.eqb_eq in Ec; subst c'. congruence.
-    + cbn [fst snd ok_step].
-      assert (Hw : waiters_on fd t = []).
-      { apply (waiters_none fd t Ut). intros c' H. destruct (L c' fd H Hnv) as [L1 _].
-        rewrite (so_fwd _ _ _ S c' fd L1) in G. discriminate. }
-      rewrite Hw. cbn [fold_left]. split; [reflexivity|]. split; [reflexivity|].
-      constructor; auto.
-  - (* Del *)
-    assert (Hfd : 0 <= fd < nfd) by lia. clear Hwf Hp.
-    destruct I as [S Y Ub Ut J L V R].
-    assert (Hnv : fd <> VOID) by (unfold VOID; lia).
-    destruct (del_ok nfd (l_sel l) b fd S Ub Hfd) as [s' [E S']].
-    cbn [step]. rewrite E. cbn [fst snd ok_step]. split; [reflexivity|]. split; [reflexivity|].
-    constructor; cbn [l_sel l_sys l_cotok]; auto.
-    + now rewrite Y.
-    + now apply ukeys_filter.
-    + now apply ukeys_void_fd.
-    + intros c1 c2 f H1 H2. rewrite (aget_filter_snd b fd c1 Ub) in H1. rewrite (aget_filter_snd b fd c2 Ub) in H2.
-      destruct (aget c1 b) as [f1|] eqn:G1; [|discriminate]. destruct (aget c2 b) as [f2|] eqn:G2; [|discriminate].
-      destruct (f1 =? fd); [discriminate|]. destruct (f2 =? fd); [discriminate|].
-      inversion H1; inversion H2; subst. exact (J c1 c2 f G1 G2).
-    + intros c f H Hv. rewrite aget_void_fd in H. destruct (aget c t) as [f0|] eqn:G0; [|discriminate].
-      destruct (f0 =? fd) eqn:E0; inversion H; subst f; [congruence|].
-      destruct (L c f0 G0 Hv) as [L1 L2]. split; [|exact L2].
-      rewrite (aget_filter_snd b fd _ Ub), L1, E0. reflexivity.
-    + intros c H. rewrite aget_void_fd in H. destruct (aget c t) as [f0|] eqn:G0; [|discriminate].
-      rewrite (aget_filter_snd b fd _ Ub).
-      destruct (f0 =? fd) eqn:E0.
-      * apply Z.eqb_eq in E0; subst f0. destruct (L c fd G0 Hnv) as [L1 _]. rewrite L1, Z.eqb_refl. reflexivity.
-      * inversion H; subst f0. now rewrite (V c G0).
-    + intros c f H. rewrite (aget_filter_snd b fd _ Ub) in H.
-      destruct (aget c b) as [f1|] eqn:G1; [|discriminate]. destruct (f1 =? fd); [discriminate|].
-      inversion H; subst. exact (R c f G1).
-Qed.
-
-Lemma run_inv : forall nfd ops l t b,
-  Inv nfd l t b -> wf_from nfd t ops = true -> paired_from b ops = true ->
-  ok_from t ops (fst (run_from l ops)) = true.
-Proof.
-  intros nfd ops. induction ops as [|o ops IH]; intros l t b I Hwf Hp; [reflexivity|].
-  cbn [wf_from] in Hwf. apply andb_true_iff in Hwf as [Hw1 Hw2].
-  cbn [paired_from] in Hp. destruct (pair_step b o) as [pk b1] eqn:Ep.
-  apply andb_true_iff in Hp as [Hp1 Hp2].
-  assert (Hp1' : fst (pair_step b o) = true) by now rewrite Ep.
-  destruct (step_inv nfd l t b o I Hw1 Hp1') as [A [B C]].
-  cbn [run_from]. destruct (step l o) as [l1 r] eqn:Es. cbn [fst snd] in *.
-  destruct (run_from l1 ops) as [rs lf] eqn:Er. cbn [fst ok_from].
-  destruct (ok_step t o r) as [k t1] eqn:Eo. cbn [fst snd] in *. subst k t1. cbn [andb].
-  rewrite Ep in C. cbn [snd] in C.
-  specialize (IH l1 (spec_step t o) b1 C Hw2 Hp2). now rewrite Er in IH.
-Qed.
-
-Lemma inv_init : forall nfd, 0 <= nfd -> Inv nfd (loop_init nfd) [] [].
-Proof.
-  intros nfd Hn. constructor; cbn [loop_init l_sel l_sys l_cotok]; try (intros; discriminate); try apply ukeys_nil; auto.
-  constructor; cbn [sel_init s_kern s_wrec s_open s_rrec repeat]; try (intros; discriminate); auto.
-  - now exists [].
-  - intros fd Hfd.
-    assert (G : forall n k, (Z.to_nat fd < k + n)%nat -> (k <= Z.to_nat fd)%nat ->
-              zmem fd (map Z.of_nat (seq k n)) = true).
-    { intros n. induction n as [|n IHn]; intros k H1 H2; [lia|].
-      cbn [seq map zmem]. destruct (fd =? Z.of_nat k) eqn:E; [reflexivity|]. cbn [orb].
-      apply IHn; lia. }
-    apply G; lia.
-Qed.
-
-Lemma holds_outside : forall nfd ops,
-  wf_C20 nfd ops = true -> paired ops = true -> ok_C20 ops (run_C20 nfd ops) = true.
-Proof.
-  intros nfd ops Hwf Hp. unfold wf_C20 in Hwf. apply andb_true_iff in Hwf as [Hn Hwf].
-  unfold ok_C20, run_C20. apply (run_inv nfd ops (loop_init nfd) [] []); auto.
-  apply inv_init. lia.
-Qed.
-
 (** the oracle's readiness clause in words *)
 Lemma same_set_spec : forall a b, same_set a b = true -> forall x, In x a <-> In x b.
 Proof.
@@ -439,37 +22,60 @@ Proof.
   split; [apply (S a b H1)|apply (S b a H2)].
 Qed.
 
-Lemma ready_clause : forall t fd tok hit woken t',
-  ok_step t (Ready fd) (OEvent tok hit woken) = (true, t') ->
-  forall c, In c woken <-> In c (waiters_on fd t).
+Lemma ready_clause : forall t d fd tok hit woken t',
+  ok_step t (Ready d fd) (OEvent tok hit woken) = (true, t') ->
+  forall c, In c woken <-> In c (waiters_on fd d t).
 Proof.
-  intros t fd tok hit woken t' H c. cbn [ok_step] in H. inversion H as [[H1 H2]].
+  intros t d fd tok hit woken t' H c. cbn [ok_step] in H. inversion H as [[H1 H2]].
   symmetry. now apply same_set_spec.
 Qed.
 
-Lemma ready_clause_noevent : forall t fd t',
-  ok_step t (Ready fd) ONoEvent = (true, t') -> waiters_on fd t = [].
+Lemma ready_clause_noevent : forall t d fd t',
+  ok_step t (Ready d fd) ONoEvent = (true, t') -> waiters_on fd d t = [].
 Proof.
-  intros t fd t' H. cbn [ok_step] in H. destruct (waiters_on fd t); [reflexivity|]. inversion H.
+  intros t d fd t' H. cbn [ok_step] in H. destruct (waiters_on fd d t); [reflexivity|]. inversion H.
 Qed.
 
-(** the recorded finding: a registration outlives the wait that made it *)
-Definition witness_missed : list op := [WaitT 13712591878437130464 1; Wait 440535360 1; Ready 1].
+Lemma wake_hits : forall t d fd tok hit woken t' c,
+  ok_step t (Ready d fd) (OEvent tok hit woken) = (true, t') -> In c (waiters_on fd d t) -> In c woken.
+Proof. intros t d fd tok hit woken t' c H. now apply (ready_clause t d fd tok hit woken t' H c). Qed.
+
+Lemma no_cross_wake : forall t d fd tok hit woken t' c,
+  ok_step t (Ready d fd) (OEvent tok hit woken) = (true, t') -> In c woken -> In c (waiters_on fd d t).
+Proof. intros t d fd tok hit woken t' c H. now apply (ready_clause t d fd tok hit woken t' H c). Qed.
+
+(** who is in [waiters_on] *)
+Lemma waiters_on_spec : forall fd d t c,
+  In c (waiters_on fd d t) <-> exists f w, In (c, (f, w)) t /\ f = fd /\ w = d.
+Proof.
+  intros fd d t c. unfold waiters_on. rewrite in_map_iff. split.
+  - intros [[c' [f w]] [E H]]. cbn [fst] in E. subst c'. apply filter_In in H as [H1 H2].
+    unfold waits_for in H2. cbn [fst snd] in H2. apply andb_true_iff in H2 as [H2 H3].
+    apply Z.eqb_eq in H2. apply eqb_prop in H3. now exists f, w.
+  - intros [f [w [H [E1 E2]]]]. subst f w. exists (c, (fd, d)). split; [reflexivity|].
+    apply filter_In. split; [exact H|]. unfold waits_for. cbn [fst snd]. now rewrite Z.eqb_refl, eqb_reflx.
+Qed.
+
+(** the recorded findings *)
+Definition witness_missed : list op :=
+  [WaitT false 13712591878437130464 1; Wait false 440535360 1; Ready false 1].
 Definition witness_cross : list op :=
-  [WaitT 6297203254532200539 0; Wait 6297203254532200539 1; Ready 0].
+  [WaitT false 6297203254532200539 0; Wait false 6297203254532200539 1; Ready false 0].
+Definition witness_one_token : list op :=
+  [Wait true 13712591878437130464 0; Wait false 440535360 0; Ready true 0].
 
 Lemma refuted_missed : exists nfd ops, wf_C20 nfd ops = true /\ ok_C20 ops (run_C20 nfd ops) = false.
 Proof. exists 2, witness_missed. split; vm_compute; reflexivity. Qed.
 
 Lemma refuted_cross : exists nfd ops, wf_C20 nfd ops = true /\ ok_C20 ops (run_C20 nfd ops) = false
-  /\ run_C20 nfd ops = [ORegT true (Some 6297203254532200539) true; OReg true (Some 6297203254532200539);
+  /\ run_C20 nfd ops = [ORegT true (Some (true, false, 6297203254532200539)) true;
+                        OReg true (Some (true, false, 6297203254532200539));
                         OEvent 6297203254532200539 true [6297203254532200539]].
 Proof. exists 2, witness_cross. repeat split; vm_compute; reflexivity. Qed.
 
-Lemma wake_hits : forall t fd tok hit woken t' c,
-  ok_step t (Ready fd) (OEvent tok hit woken) = (true, t') -> In c (waiters_on fd t) -> In c woken.
-Proof. intros t fd tok hit woken t' c H. now apply (ready_clause t fd tok hit woken t' H c). Qed.
-
-Lemma no_cross_wake : forall t fd tok hit woken t' c,
-  ok_step t (Ready fd) (OEvent tok hit woken) = (true, t') -> In c woken -> In c (waiters_on fd t).
-Proof. intros t fd tok hit woken t' c H. now apply (ready_clause t fd tok hit woken t' H c). Qed.
+Lemma refuted_one_token : exists nfd ops, wf_C20 nfd ops = true /\ ok_C20 ops (run_C20 nfd ops) = false
+  /\ run_C20 nfd ops = [OReg true (Some (false, true, 13712591878437130464));
+                        OReg true (Some (true, true, 440535360));
+                        OEvent 440535360 true [440535360]]
+  /\ fst (tags_C20 nfd ops) = [TagOneToken].
+Proof. exists 1, witness_one_token. repeat split; vm_compute; reflexivity. Qed.
